@@ -83,6 +83,16 @@ EvalAll(nodes, env) ==
     FoldLeft(LAMBDA vals, i : Let1(EvalNode(nodes[i], vals, env), LAMBDA v : Append(vals, v)),
              <<>>, Idx(Len(nodes)))
 
+\* Evaluation without an environment: register and memory loads evaluate to
+\* zero.  Meaningful exactly for the nodes that constant folding reduces to a
+\* constant (their value does not depend on any load).
+NoEnv == [regs |-> <<>>, mem |-> <<>>]
+EvalNoEnv(nodes) ==
+    FoldLeft(LAMBDA vals, i :
+               Let1(IF nodes[i].k \in {"r", "m"} THEN Zeros(nodes[i].w) ELSE EvalNode(nodes[i], vals, NoEnv),
+                    LAMBDA v : Append(vals, v)),
+             <<>>, Idx(Len(nodes)))
+
 (***************************************************************************)
 (* Structure.                                                              *)
 (***************************************************************************)
